@@ -529,6 +529,9 @@ def k_rules(p: Project, rep: Report):
                     lossy.append(text(x)[:80])
             if isinstance(x, ast.Subscript) and isinstance(x.slice, ast.Slice) and any(a_ in text(x.value) for a_ in keyparts):
                 lossy.append(text(x)[:80])
+    # ... and stable: the name is the same in the next process (builtin hash() of a str is salted per interpreter run)
+    salted = [text(x)[:60] for ct, ce in cache_exprs.items() for x in ast.walk(ce) if isinstance(x, ast.Call) and isinstance(x.func, ast.Name) and x.func.id in ("hash", "id")]
+    rep.check("K-R3", "request_profile:cache-key-stable-across-processes", not salted, f"{salted[0] if salted else ''} goes into the cache file name: hash() of a str is salted per interpreter process (id() is an address), so a restarted client never finds the profile it cached - it asks with no date, skips the not-older test and leaves one file per run" if salted else "", loc(p, where))
     rep.check("K-R3", "request_profile:cache-key-components-unmerged", not lossy, f"{lossy[0] if lossy else ''} maps different ORG/FID values to one name (e.g. 'A/B' and 'A_B', 'Bank' and 'bank'): the two servers share one cache entry, and a profile cached from one is used for the other" if lossy else "", loc(p, where))
 
     # ------------------------------------------------------------------ K-R4
